@@ -317,7 +317,7 @@ func (f *Filter) strValue() string {
 	switch f.operator {
 	case Contains, ContainsNot, ContainsNoCase, ContainsNoCaseNot:
 		// substring operators are written as regular expression operators, so quote the text
-		stringVal = regexp.QuoteMeta(stringVal)
+		stringVal = quoteOuterBlanks(regexp.QuoteMeta(stringVal))
 	default:
 	}
 	switch colType {
@@ -338,6 +338,21 @@ func (f *Filter) strValue() string {
 	}
 
 	return value
+}
+
+// quoteOuterBlanks writes the blanks at the beginning and the end of a quoted text as character classes,
+// the parser would trim them from the header line otherwise.
+func quoteOuterBlanks(text string) string {
+	inner := strings.Trim(text, " ")
+	if inner == text {
+		return text
+	}
+	if inner == "" {
+		return strings.Repeat("[ ]", len(text))
+	}
+	start := strings.Index(text, inner)
+
+	return strings.Repeat("[ ]", start) + inner + strings.Repeat("[ ]", len(text)-start-len(inner))
 }
 
 // ApplyValue add the given value to this stats filter.
